@@ -1570,28 +1570,28 @@ def encoder_panics(lib, l):
 def _gz_new(ex, args, f):
     if ex.decide(encoder_panics("flate2", deref_all(ex, args[1]).level.e)):
         raise PathEnd("panic", "flate2 GzEncoder::new: debug_assert!(level <= 10)")
-    return Opaque("GzEncoder")
+    return EncV("gzip", deref_all(ex, args[1]).level.e)
 
 
 @intr("liblzma::write::XzEncoder::new")
 def _xz_new(ex, args, f):
     if ex.decide(encoder_panics("liblzma", deref_all(ex, args[1]).e)):
         raise PathEnd("panic", "liblzma XzEncoder::new: new_easy_encoder(level).unwrap() on an unsupported preset")
-    return Opaque("XzEncoder")
+    return EncV("xz", deref_all(ex, args[1]).e)
 
 
 @intr("bzip2::write::BzEncoder::new")
 def _bz_new(ex, args, f):
     if ex.decide(encoder_panics("bzip2", deref_all(ex, args[1]).level.e)):
         raise PathEnd("panic", "bzip2 BzEncoder::new: assert_eq!(BZ2_bzCompressInit(level), 0)")
-    return Opaque("BzEncoder")
+    return EncV("bzip2", deref_all(ex, args[1]).level.e)
 
 
 @intr("zstd::Encoder::new", "zstd::stream::Encoder::new")
 def _zstd_new(ex, args, f):
     fsq = getattr(ex, "_zstd_n", 0) + 1
     ex._zstd_n = fsq
-    return ok(Opaque("ZstdEncoder")) if ex.decide(z3.Bool("zstd_new_ok_%d" % fsq)) else err(Opaque("io::Error(zstd)"))
+    return ok(EncV("zstd", deref_all(ex, args[1]).e)) if ex.decide(z3.Bool("zstd_new_ok_%d" % fsq)) else err(Opaque("io::Error(zstd)"))
 
 
 @intr("std::ops::RangeInclusive::new", "RangeInclusive::new")
@@ -2330,3 +2330,77 @@ def _iter_count(ex, args, f):
         n += 1
         if n > 100000:
             raise Unsupported("count: iterator does not end")
+
+
+# ---- compression as an uninterpreted function ------------------------------------------------------------------------------------------------
+# The encoders/decoders are C libraries.  Model: an encoder collects what it is given; finish() returns COMPRESSED_LEN bytes, each an uninterpreted
+# function (per algorithm and input length) of the level and of every input byte in order; the matching decoder is its inverse on exactly those
+# outputs (registry below) and is not modelled on anything else.  Nothing about sizes or formats is claimed.
+COMPRESSED_LEN = 6
+ENCODERS = []          # every encoder finished on the current path: (kind, level term, input bytes, output bytes)
+_ZUF = {}
+
+
+class EncV:
+    def __init__(self, kind, level):
+        self.kind = kind
+        self.level = level
+        self.buf = []
+
+    def write_all(self, ex, data):
+        self.buf += list(data)
+        return ok()
+
+    def write(self, ex, data):
+        self.buf += list(data)
+        return ok(usize(len(data)))
+
+
+def _compress_uf(kind, level, data):
+    n = len(data)
+    out = []
+    lv = level if level.size() == 32 else z3.ZeroExt(32 - level.size(), level)
+    for i in range(COMPRESSED_LEN):
+        key = (kind, n, i)
+        if key not in _ZUF:
+            _ZUF[key] = z3.Function("Z_%s_%d_%d" % (kind, n, i), *([z3.BitVecSort(32)] + [z3.BitVecSort(8)] * n + [z3.BitVecSort(8)]))
+        out.append(_ZUF[key](lv, *data))
+    return out
+
+
+@intr("flate2::write::GzEncoder::finish", "liblzma::write::XzEncoder::finish", "bzip2::write::BzEncoder::finish", "zstd::Encoder::finish", "zstd::stream::Encoder::finish")
+def _enc_finish(ex, args, f):
+    enc = deref_all(ex, args[0])
+    out = _compress_uf(enc.kind, enc.level, enc.buf)
+    ENCODERS.append((enc.kind, enc.level, list(enc.buf), out))
+    return ok(VecV([Int(b, "u8") for b in out]))
+
+
+@intr("<_ as Write>::flush")
+def _flush_enc(ex, args, f, _prev=I.get("<_ as Write>::flush")):
+    w = deref_all(ex, args[0])
+    if isinstance(w, (EncV, VecV)):
+        return ok()
+    if _prev is None:
+        raise Unsupported("flush on %r" % (w,))
+    return _prev(ex, args, f)
+
+
+def _decoder_new(kind):
+    def g(ex, args, f):
+        rd = deref_all(ex, args[0])
+        data = rd.data[rd.pos:]
+        for (k, lv, inp, out) in ENCODERS:
+            if k == kind and len(out) == len(data) and all(a.eq(b) for a, b in zip(out, data)):
+                r = Reader(inp)
+                return ok(r) if "zstd" in f else r
+        raise Unsupported("decompression of bytes that are not the output of the modelled %s encoder" % kind)
+    return g
+
+
+I["flate2::bufread::GzDecoder::new"] = _decoder_new("gzip")
+I["liblzma::bufread::XzDecoder::new"] = _decoder_new("xz")
+I["bzip2::bufread::BzDecoder::new"] = _decoder_new("bzip2")
+I["zstd::Decoder::new"] = _decoder_new("zstd")
+I["zstd::stream::Decoder::new"] = _decoder_new("zstd")
+I["zstd::stream::read::Decoder::new"] = _decoder_new("zstd")
